@@ -51,6 +51,7 @@ type ctl struct {
 	// description does so before a later read refreshes it)
 	tsoArmed bool
 	tsoSlow  bool // armed: after the next successful commit the next oracle read is only SLOW (state 2), not failed
+	tsoSkip  bool // armed: the FIRST oracle read after the next successful commit succeeds, the second one fails (state 3)
 	tsoState int  // 0 idle, 1 fail the next oracle read, 2 delay the next oracle read
 	tsoFired int
 
@@ -231,6 +232,8 @@ func (w *kvWrap) GetTimestampOracle(ctx context.Context) (uint64, error) {
 		w.c.tsoFired++
 	case 2:
 		w.c.tsoState = 0
+	case 3:
+		w.c.tsoState = 1
 	}
 	w.c.mu.Unlock()
 	switch st {
@@ -425,6 +428,10 @@ func (b *batchWrap) Commit(ctx context.Context) error {
 				if b.w.c.tsoSlow {
 					b.w.c.tsoSlow = false
 					b.w.c.tsoState = 2
+				}
+				if b.w.c.tsoSkip {
+					b.w.c.tsoSkip = false
+					b.w.c.tsoState = 3
 				}
 			}
 			b.w.c.mu.Unlock()
